@@ -81,7 +81,8 @@ func execC02(p *drv.Plan) *Out {
 				q.Steps = append(q.Steps, s)
 			}
 		}
-		r2 := drv.RunPlan(q, q.Config, drv.Hooks{Prop: "C02"})
+		// (the twin compares the same hashes, but makes no read-only call of its own)
+		r2 := drv.RunPlan(q, q.Config, drv.Hooks{Prop: "C02", After: func(w *drv.World, s drv.Step) *drv.Violation { return w.AuditHashes() }})
 		if r2.Vio != nil || (r2.Foreign != nil && r2.Foreign.Oracle == "C10.import-hash") {
 			r1.Vio.Class = "write-path/" + r1.Vio.Class
 		} else {
